@@ -824,12 +824,27 @@ def one_append_per_column(rep):
                 if isinstance(last, ast.If) and last.orelse:
                     a1, a2 = appends(last.body), appends(last.orelse)
                     ok_present = len(a1) == 1 and len(a2) == 1 and len(appends(n.body)) == 2
-                for st in n.body:
-                    if isinstance(st, ast.If) and "not in data" in unparse(st.test):
-                        for x in st.body:
-                            if isinstance(x, ast.Assign) and \
-                                    unparse(x.value).replace(" ", "") == f"[None]*{idxv}":
-                                pad_ok = True
+                # on the way to each append of the read loop the column is padded when new
+                def is_pad(st):
+                    return isinstance(st, ast.If) and "not in data" in unparse(st.test) and any(
+                        isinstance(x, ast.Assign)
+                        and unparse(x.value).replace(" ", "") == f"[None]*{idxv}"
+                        for x in st.body)
+
+                def padded(call):
+                    cur = parent_stmt(call)
+                    while cur is not None and cur is not n:
+                        par = getattr(cur, "_parent", None)
+                        for field in ("body", "orelse"):
+                            blk = getattr(par, field, None)
+                            if isinstance(blk, list) and any(x is cur for x in blk):
+                                k = [i for i, x in enumerate(blk) if x is cur][0]
+                                if any(is_pad(x) for x in blk[:k]):
+                                    return True
+                        cur = par
+                    return False
+                aps = appends(n.body)
+                pad_ok = pad_ok or (bool(aps) and all(padded(c) for c in aps))
         ok = ok_missing and ok_present and pad_ok
         why = (f"columns do not receive exactly one entry per iteration on every path "
                f"(missing-file branch ok={ok_missing}, read branch ok={ok_present}, padding of "
@@ -1831,6 +1846,59 @@ def _balanced(t):
     return d == 0
 
 
+def _axis_slices(sl):
+    """a subscript given as a value -- tuple(slice(a, b) for g in (X, Y, Z)), a display of
+    slice(...) calls, a comprehension over the recorded widths or their reversal -- as the
+    tuple of ast.Slice it stands for; the expression unchanged when it is none of these"""
+    import copy
+
+    def as_slice(e):
+        if isinstance(e, ast.Slice):
+            return e
+        if isinstance(e, ast.Call) and unparse(e.func) == "slice" and not e.keywords \
+                and 1 <= len(e.args) <= 2:
+            lo, hi = (None, e.args[0]) if len(e.args) == 1 else e.args
+            lo = None if isinstance(lo, ast.Constant) and lo.value is None else lo
+            hi = None if isinstance(hi, ast.Constant) and hi.value is None else hi
+            return ast.Slice(lower=lo, upper=hi, step=None)
+        return None
+    e = sl
+    if isinstance(e, ast.Call) and unparse(e.func) in ("tuple", "list") and len(e.args) == 1:
+        e = e.args[0]
+    if isinstance(e, (ast.GeneratorExp, ast.ListComp)) and len(e.generators) == 1 \
+            and not e.generators[0].ifs and isinstance(e.generators[0].target, ast.Name):
+        g = e.generators[0]
+        it = g.iter
+        elems = None
+        if isinstance(it, (ast.Tuple, ast.List)):
+            elems = list(it.elts)
+        else:
+            rev = False
+            base = it
+            if isinstance(it, ast.Call) and unparse(it.func) == "reversed" and len(it.args) == 1:
+                rev, base = True, it.args[0]
+            elif isinstance(it, ast.Subscript) and unparse(it.slice) == "::-1":
+                rev, base = True, it.value
+            if "cctk_nghostzones" in unparse(base):
+                order = (2, 1, 0) if rev else (0, 1, 2)
+                elems = [ast.Subscript(value=copy.deepcopy(base), slice=ast.Constant(i),
+                                       ctx=ast.Load()) for i in order]
+        if elems is not None:
+            class Sub(ast.NodeTransformer):
+                def __init__(self, v):
+                    self.v = v
+
+                def visit_Name(self, n):
+                    return copy.deepcopy(self.v) if n.id == g.target.id else n
+            e = ast.Tuple(elts=[Sub(v).visit(copy.deepcopy(e.elt)) for v in elems],
+                          ctx=ast.Load())
+    if isinstance(e, (ast.Tuple, ast.List)):
+        parts = [as_slice(x) for x in e.elts]
+        if all(p is not None for p in parts):
+            return ast.fix_missing_locations(ast.Tuple(elts=parts, ctx=ast.Load()))
+    return sl
+
+
 def ghost_and_axes(rep):
     """Decided on resolved expressions (temporaries and aliases substituted)."""
     import re
@@ -1849,7 +1917,7 @@ def ghost_and_axes(rep):
         if not trims:
             raise AnalysisError(f"{q}: ghost-zone trimming not found")
         for t in trims:
-            sl = resolve(fn, t.slice)
+            sl = _axis_slices(resolve(fn, t.slice))
             ok, why = False, ""
             if isinstance(sl, ast.Tuple) and all(isinstance(e, ast.Slice) for e in sl.elts):
                 pairs = []
@@ -1864,12 +1932,8 @@ def ghost_and_axes(rep):
                        f"axis i must be trimmed by nghostzones[2-i] on both sides; found "
                        f"{[(i, c) for i, c, _s in pairs]}")
             else:
-                why = (f"trimming `{unparse(sl)[:60]}` pairs raw axis i with "
-                       "cctk_nghostzones[i]; raw arrays are stored (z, y, x), so the x ghost "
-                       "width would be applied to the z axis")
-                txt = unparse(sl)
-                if "[::-1]" in txt or "reversed(" in txt:
-                    ok = True
+                raise AnalysisError(f"{q}: the ghost-zone trimming `{unparse(sl)[:70]}` is not "
+                                    "understood as one slice per axis")
             rep.check(ok, "storage-order", key + "::ghost-trim", why, node=t)
         # chunk dict keyed by the recorded origin: a store  <chunks>[tuple(attrs['iorigin'])]
         ok = False
@@ -2008,18 +2072,36 @@ def restart_selection(rep):
         for s_ in sites:
             # every exit of the "not exactly one key" side either raises or has reduced `key`
             # to its single element; the other side takes the single element
-            def exits_ok(blk):
+            # `follow`: falling off the end of the site leads straight to `key = key[0]`
+            # (guard-clause form); then a side may also end by establishing a single key
+            # (`if len(key) != 1: raise` as its last statement) or be empty when it is the
+            # single-key side
+            par = getattr(s_, "_parent", None)
+            follow = False
+            for field in ("body", "orelse"):
+                blk_ = getattr(par, field, None)
+                if isinstance(blk_, list) and any(x is s_ for x in blk_):
+                    k_ = [i for i, x in enumerate(blk_) if x is s_][0]
+                    follow = k_ + 1 < len(blk_) and unparse(blk_[k_ + 1]) == "key = key[0]"
+
+            def exits_ok(blk, single=False):
                 if not blk:
-                    return False
+                    return follow and single
                 last = blk[-1]
                 if isinstance(last, ast.Raise):
                     return True
                 if isinstance(last, ast.If):
+                    if follow and not last.orelse and unparse(last.test) == "len(key) != 1" \
+                            and last.body and isinstance(last.body[-1], ast.Raise):
+                        return True
                     return exits_ok(last.body) and bool(last.orelse) and exits_ok(last.orelse)
                 return isinstance(last, ast.Assign) and unparse(last) == "key = key[0]"
             bad_side, good_side = (s_.body, s_.orelse) if "!=" in unparse(s_.test) \
                 else (s_.orelse, s_.body)
-            ok = ok and exits_ok(bad_side) and bool(good_side) and exits_ok(good_side)
+            if s_ is not None and any(s_ is x for a_ in sites if a_ is not s_
+                                      for x in ast.walk(a_)):
+                continue        # a nested re-check: judged as part of the outer site
+            ok = ok and exits_ok(bad_side) and exits_ok(good_side, single=True)
         rep.check(ok, "restart-selection", f"{RD}::{q}::ambiguous-key-raises",
                   "an ambiguous or missing dataset key must raise instead of picking one",
                   node=f2)
